@@ -1251,12 +1251,20 @@ def A8_snapshot(rep, flow: Flow, builders=None):
         for pi, r in enumerate(flow.paths(fq)):
             if r.kind != "return" or r.decisions.get(("isnone", ("param", "measured_qubits"))) is True:
                 continue
+            # a path taken only when the caller's object IS a tuple (`type(x) is tuple`, exact type: no mutable subclass)
+            # may keep the object itself: nothing can be edited afterwards
+            is_exact_tuple = any(v is True and isinstance(k, tuple) and len(k) == 2 and k[0] == "truth" and isinstance(k[1], tuple) and k[1][:1] == ("is",)
+                                 and ("type", ("param", "measured_qubits")) in k[1][1:] and any(isinstance(x, tuple) and x[:1] == ("ext",) and x[1].endswith("tuple") for x in k[1][1:])
+                                 for k, v in r.decisions.items())
             for o in r.heap.values():
                 if not (o.kind == "record" and o.cls is not None and o.cls.name == "ReadoutInfo"):
                     continue
                 for k, val in o.fields.items():
                     ho = r.heap.get(val.oid) if isinstance(val, Ref) else None
-                    if ho is not None and ho.origin[0] == "param" and ho.origin[1] == "measured_qubits":
+                    if is_exact_tuple and ((ho is not None and ho.origin[0] == "param" and ho.origin[1] == "measured_qubits") or (isinstance(val, Sym) and val.tag == "param" and val.args and val.args[0] == "measured_qubits")):
+                        rep.ok("A8", 1, nontrivial=(fq, pi, k, "tuple"), sample=f"{f.qualname} path #{pi}: .{k} is the caller's object on a path taken only for an exact tuple (immutable)")
+                        n += 1
+                    elif ho is not None and ho.origin[0] == "param" and ho.origin[1] == "measured_qubits":
                         rep.finding("A8", f"{fq}:{k}", f"{f.module.rel} {f.qualname} return path #{pi}: the readout record's `.{k}` is the caller's own `measured_qubits` object: editing or reusing that list later changes the circuit that was returned")
                         n += 1
                     elif isinstance(val, Sym) and val.tag == "param" and val.args and val.args[0] == "measured_qubits":
